@@ -35,3 +35,49 @@ PROPS["C19"] = dict(
                  "unsafe DenseMatrix::uninitialized / ravel are exercised only through from_rows / fill",
                  "TLC, CommunityModules Json/IOUtils and the 20-line projection code of the harness are trusted"],
 )
+
+
+STRIPED_INV = ["Refines", "DeepWrap", "ExactWrap", "NoGarbage", "FullData", "EmitReplay"]
+STRIPED_ACT = ["StripeFresh", "StripeInto", "Configure"]
+PROPS["C04"] = dict(
+    mc=[
+        dict(name="MC_Striped_generic_C2", module="MC_Striped", view="View", invariants=STRIPED_INV, actions=STRIPED_ACT,
+             constants=dict(C=2, K=3, Variant='"generic"', T=2, Emit=False, MaxWrap=4),
+             quick=dict(MaxLen=4, MaxDepth=3), thorough=dict(MaxLen=5, MaxDepth=4)),
+        dict(name="MC_Striped_tiles_C2", module="MC_Striped", view="View", invariants=STRIPED_INV, actions=STRIPED_ACT,
+             constants=dict(C=2, K=3, Variant='"tiles"', T=2, Emit=False, MaxWrap=4),
+             quick=dict(MaxLen=5, MaxDepth=3), thorough=dict(MaxLen=6, MaxDepth=3)),
+        dict(name="MC_Striped_tiles_C3", module="MC_Striped", view="View", invariants=STRIPED_INV, actions=STRIPED_ACT,
+             constants=dict(C=3, K=3, Variant='"tiles"', T=2, Emit=False, MaxWrap=3),
+             quick=dict(MaxLen=5, MaxDepth=2), thorough=dict(MaxLen=7, MaxDepth=3)),
+        dict(name="MC_Striped_replay_C1", module="MC_Striped", view="View", invariants=STRIPED_INV, emit=True,
+             constants=dict(C=1, K=3, Variant='"generic"', T=1, Emit=True, MaxWrap=3),
+             quick=dict(MaxLen=3, MaxDepth=3), thorough=dict(MaxLen=4, MaxDepth=4)),
+        dict(name="MC_Striped_replay_C2", module="MC_Striped", view="View", invariants=STRIPED_INV, emit=True,
+             constants=dict(C=2, K=3, Variant='"generic"', T=2, Emit=True, MaxWrap=3),
+             quick=dict(MaxLen=4, MaxDepth=3), thorough=dict(MaxLen=5, MaxDepth=4)),
+        dict(name="MC_Striped_replay_C4", module="MC_Striped", view="View", invariants=STRIPED_INV, emit=True,
+             constants=dict(C=4, K=3, Variant='"generic"', T=4, Emit=True, MaxWrap=3),
+             quick=dict(MaxLen=5, MaxDepth=2), thorough=dict(MaxLen=6, MaxDepth=3)),
+    ],
+    record=True, trace="Trace_C04", shards=12,
+    level_text="Bounded exhaustive model checking of the striping buffer (all sequences over 2 symbols + wildcard up to "
+               "MaxLen, all histories of stripe / stripe_into / configure_wrap up to MaxDepth; generic fill and the AVX2 "
+               "tile+tail+fill algorithm as I-models refined against the layout definition), replay of TLC behaviours on "
+               "the real generic pipeline at C in {1,2,4}, and TLC validation of recorded histories of the real generic / "
+               "AVX2 / dispatched (each arm forced) pipelines, DNA and protein, C in {1,2,4,16,32}, lengths across every "
+               "residue mod 32 and the 32x32 tile boundary. Histories x inputs x configurations are exactly what the "
+               "state machine enumerates (small) and what trace validation samples (real sizes).",
+    level_note="MC bounded to C<=4, L<=7; real column counts and lengths only by sampled executions (every L<=70 and "
+               "selected lengths up to 2049 in quick; every L<=1100 plus 2k/4k/8k in thorough). NEON not executable. "
+               "Look-ahead rows deeper than the sequence rows are advisory here (decided through C01). "
+               "Trusted: TLC, Json module, the harness projection of the matrix.",
+    rule="impl->spec: one history = one buffer through stripe (fresh, or EncodedSequence::to_striped for dispatch), "
+         "stripe_into (reuse with longer/shorter sequence), configure_wrap / configure (widths up, down, 0, deeper than "
+         "the row count); after every call the full matrix, len, wrap, 8 sampled Index results and both symbol-count "
+         "APIs are logged and checked by TLC against Striped!ObsOK. distinct_nontrivial = distinct (backend, arm, "
+         "alphabet, C, length, fresh/reuse | width) tuples.",
+    assumptions=["wildcard rank is K-1 and is the default symbol (true for Dna and Protein)",
+                 "sequence contents are random with 2-20% wildcards; adversarial contents are not needed because "
+                 "striping is content-oblivious (checked in MC for all contents)"],
+)
